@@ -131,7 +131,7 @@ def run(run):
     import minecraft
     thorough = run.tier == 'thorough'
     run.level = 'exploration'
-    reps = 120 if thorough else 10
+    reps = 400 if thorough else 16
     run.rule = ('%d release protocols (1.8 .. 1.18.1) x %d core packets x %d '
                 'boundary/random value sets, both directions: real write vs '
                 'reference frame bytes; real read of reference bytes vs values '
